@@ -173,16 +173,36 @@ def layout_from_files(spec_file, grouped, computed=None):
     return {"regs": regs, "notes": notes, "by_uid": by_uid}
 
 
+def mark_overlaps(lay):
+    """binfree: leaves whose byte range overlaps another top-level entry (data that cannot be asserted per register)."""
+    spans = []
+    for i, r in enumerate(lay["regs"], 1):
+        if r["kind"] == "leaf":
+            spans.append((r["off"], r["off"] + r["width"] // 8, i))
+    spans.sort()
+    free = set()
+    for k in range(len(spans)):
+        for m in range(k + 1, len(spans)):
+            if spans[m][0] >= spans[k][1]:
+                break
+            free.add(spans[k][2])
+            free.add(spans[m][2])
+    for i, r in enumerate(lay["regs"], 1):
+        r["binfree"] = i in free
+
+
 def tla_layout(lay):
-    """The part of a layout the TLA+ specification reads (names kept for messages only)."""
+    """The part of a layout the TLA+ specification reads."""
+    if lay.get("hasbin", True):
+        mark_overlaps(lay)
     regs = []
     for r in lay["regs"]:
-        regs.append({"name": r["name"], "kind": r["kind"], "width": r["width"], "reverse": r["reverse"], "parent": r["parent"], "subs": r["subs"], "rso": r["rso"],
-                     "fields": [{"off": f["off"], "width": f["width"], "shr": f["shr"], "reset": f["reset"], "hidden": f["hidden"]} for f in r["fields"]],
-                     "off": r["off"], "hidden": r["hidden"], "preset": r["preset"], "comp": r["comp"], "cond": r["cond"],
+        regs.append({"kind": r["kind"], "width": r["width"], "reverse": r["reverse"], "parent": r["parent"], "subs": r["subs"], "rso": r["rso"],
+                     "fields": [{"off": f["off"], "width": f["width"], "shr": f["shr"], "reset": f["reset"], "hidden": bool(f["hidden"])} for f in r["fields"]],
+                     "off": r["off"], "hidden": bool(r["hidden"]), "preset": r["preset"], "comp": r["comp"], "cond": r["cond"],
                      "declw": r.get("decl_width", 0), "subsw": r.get("subs_width", 0), "nmiss": len(r.get("missing_subs", [])),
-                     "presetdc": bool(r.get("preset_ambiguous"))})
-    return {"regs": regs, "size": lay.get("size", 0), "hasbin": lay.get("hasbin", True), "seal": lay.get("seal", []), "sizefld": lay.get("sizefld", {"r": 0, "f": 0}),
+                     "presetdc": bool(r.get("preset_ambiguous")), "binfree": bool(r.get("binfree", False))})
+    return {"regs": regs, "size": lay.get("size", 0), "hasbin": bool(lay.get("hasbin", True)), "seal": lay.get("seal", []), "sizefld": lay.get("sizefld", {"r": 0, "f": 0}),
             "kind": lay.get("kind", "")}
 
 
@@ -558,6 +578,16 @@ class Xmcd(Area):
             names = [f["name"] for f in lay["regs"][hdr - 1]["fields"]]
             if "configurationBlockSize" in names:
                 lay["sizefld"] = {"r": hdr, "f": names.index("configurationBlockSize") + 1}
+            # the constructor writes the identity of the area into the header (XMCD header definition of the reference manual:
+            # memoryInterface 0 = FlexSPI/XSPI RAM, 1 = SEMC SDRAM; configurationBlockType 0 = simplified, 1 = full)
+            h = lay["regs"][hdr - 1]
+            val = int_of(h["preset"])
+            for fname, fval in (("memoryInterface", 1 if mt == "semc_sdram" else 0), ("configurationBlockType", 1 if ct == "full" else 0)):
+                if fname in names:
+                    fl = h["fields"][names.index(fname)]
+                    mask = ((1 << fl["width"]) - 1) << fl["off"]
+                    val = (val & ~mask) | ((fval << fl["off"]) & mask)
+            h["preset"] = bits_of(val)
         # configOption1 exists only when configOption0.optionSize != 0
         c0 = next((i for i, r in enumerate(lay["regs"], 1) if r["part"] == "block" and r["name"] == "configOption0"), 0)
         c1 = next((i for i, r in enumerate(lay["regs"], 1) if r["part"] == "block" and r["name"] == "configOption1"), 0)
